@@ -23,6 +23,7 @@ class Interrupter:
         self.where = None
         self.frame_line = None
         self.frame_func = None
+        self.frame_stack = []
 
     def _local(self, frame, event, arg):
         if event == "line":
@@ -32,6 +33,11 @@ class Interrupter:
                 self.where = (os.path.basename(frame.f_code.co_filename),
                               frame.f_lineno)
                 self.frame_func = frame.f_code.co_name
+                self.frame_stack = []
+                f = frame
+                while f is not None and len(self.frame_stack) < 40:
+                    self.frame_stack.append(f.f_code.co_name)
+                    f = f.f_back
                 import linecache
                 self.frame_line = linecache.getline(
                     frame.f_code.co_filename, frame.f_lineno)
